@@ -2,7 +2,7 @@
 //! unit: V-C02-split-view
 //! tier: quick
 //! fns: linfa::DatasetBase::split_with_ratio (view variant: records, targets and weights are cut at the same row; names carried over)
-//@ extract SV from src/dataset/impl_dataset.rs anchor "let n = (self.nsamples() as f32 * ratio).ceil() as usize;" until "(dataset1, dataset2)"
+//@ extract SV from src/dataset/impl_dataset.rs anchor "let n = (" until "(dataset1, dataset2)"
 //@ rewrite SV "(self.nsamples() as f32 * ratio).ceil() as usize" => "ceil_product_abs(self.nsamples(), ratio)   /* (self.nsamples() as f32 * ratio).ceil() as usize */"
 //@ rewrite SV "Axis(0)" => "Axis0"
 //@ rewrite SV "T::new_targets_view(" => "new_targets_view("
@@ -16,9 +16,9 @@ use vstd::prelude::*;
 verus! {
 pub struct Axis0;
 pub struct RatioTok;
-// (n as f32 * ratio).ceil() as usize: for a ratio in [0, 1] and n < 2^24 a value in 0..=n (checked on concrete sizes by K-c02_split_view_*)
+// (n as f32 * ratio).ceil() as usize: an arbitrary count (n as f32 may round up beyond 2^24 samples); the code clamps it with `.min(nsamples)`
 #[verifier::external_body]
-pub fn ceil_product_abs(n: usize, r: RatioTok) -> (k: usize) ensures k <= n { unimplemented!() }
+pub fn ceil_product_abs(n: usize, r: RatioTok) -> (k: usize) { unimplemented!() }
 // an array / view: source identity and the row range [lo, hi) of the source it shows
 pub struct ArrTok { pub src: Ghost<int>, pub lo: Ghost<int>, pub hi: Ghost<int> }
 impl ArrTok {
